@@ -2,10 +2,10 @@ package main
 
 import (
 	"fmt"
-	"os"
 	"go/constant"
 	"go/token"
 	"go/types"
+	"os"
 	"sort"
 	"strings"
 
@@ -151,10 +151,19 @@ func ruleAuthGate(c *Ctx, rule string, handlers map[string]*ssa.Function) {
 		c.Anchor(rule, fname(h))
 		mv := stunConst(w, m)
 		n := 0
+		inBody := map[*ssa.Function]bool{}
+		for _, f := range w.helpersOf(h) {
+			inBody[f] = true
+		}
 		for _, f := range w.helpersOf(h) {
 			w.eachInstr(f, func(in ssa.Instruction) {
 				eff := w.effectAt(in)
 				if eff == "" {
+					return
+				}
+				// the call of a stage whose body is part of this handler: its effects are
+				// judged where they happen
+				if cal := staticCallee(in); cal != nil && inBody[cal] {
 					return
 				}
 				n++
@@ -449,11 +458,18 @@ func ruleOwnerCheck(c *Ctx, rule string, handlers map[string]*ssa.Function) {
 			continue
 		}
 		c.Anchor(rule, fname(h))
+		inBody := map[*ssa.Function]bool{}
+		for _, f := range w.helpersOf(h) {
+			inBody[f] = true
+		}
 		for _, f := range w.helpersOf(h) {
 			w.eachInstr(f, func(in ssa.Instruction) {
 				eff := w.effectAt(in)
 				if eff == "" {
 					return
+				}
+				if cal := staticCallee(in); cal != nil && inBody[cal] {
+					return // a stage of this handler: judged inside
 				}
 				ac := w.authFact(in)
 				if ac == nil {
